@@ -84,9 +84,12 @@ func main() {
 		*out = filepath.Join(*verif, "out", *prop)
 	}
 	os.RemoveAll(*out)
-	timeout := 10 * time.Second
+	// every claimed obligation discharges in a few seconds on an idle machine; the
+	// race timeout is generous so that a loaded machine (several checks at once)
+	// does not turn a slow answer into an alarm
+	timeout := 25 * time.Second
 	if *tier == "thorough" {
-		timeout = 60 * time.Second
+		timeout = 90 * time.Second
 	}
 	seed := 0
 	fmt.Sscan(os.Getenv("VERIF_SEED"), &seed)
